@@ -16,10 +16,15 @@ import H2V.Lemmas.ConnRecvPConn
       the stream layer with any arguments (`Reach`);
     * the same at STREAM level: theorems 7–9, for histories in which `apply_local_settings` and
       `Inner::send_reset` did not fail (`ReachOk`; a failure is a connection error, see the notes).
-  What is NOT true, hence not proved: "no connection is ever left permanently short of credit".
-  `Lemmas.ConnRecvP.leak_counterexample` (reproduced on the real code): DATA received on a pushed
-  stream that the application never polls is never credited back to the connection window.
-  In the invariant this is the one inequality: Σ streams' in-flight ≤ connection's in-flight.
+  The last clause, "no connection is ever left permanently short of credit", was FALSE for the
+  pinned code: DATA received on a pushed stream that the application never polls was never
+  credited back to the connection window (found here, reproduced on the real code, repaired as F30
+  in `drop_stream_ref`, repair mirrored in the model).  With the repair the history that used to
+  leak is the positive statement `Lemmas.ConnRecvP.pushed_stream_data_credited_back`, and
+  `dropStreamRef_inv` covers the new `release_closed_capacity` calls for every history.  What is
+  still only an inequality in the invariant is Σ streams' in-flight ≤ connection's in-flight (an
+  equality would say "every in-flight octet belongs to a stream that is still in the store"; it is
+  deliberately broken at connection teardown, `clear_all_pending_accept`) — see the notes, §2.
 
   Vocabulary (defined in the lemma files):
     `Reach g s` / `ReachOk g s`  `s : Streams` is reachable from a new connection by the calls listed in
